@@ -72,9 +72,8 @@ theorem failsAlone_iff (W : World) (fuel : Nat) (decl : List FieldDecl) (o : Opt
 
 /-- For a rejected input the (uncapped) collected error names exactly the failing top-level items:
 every reported error names an item that fails on its own (no valid item is reported), and every item
-that fails on its own is named by some reported error.  `hn`: field names of a declaration are distinct. -/
-theorem C10_reported_eq_failing (W : World) (fuel : Nat) (decl : List FieldDecl)
-    (hn : (decl.map (·.name)).Nodup) (o : Opts) (data : Data) (x : Exc)
+that fails on its own is named by some reported error.  -/
+theorem C10_reported_eq_failing (W : World) (fuel : Nat) (decl : List FieldDecl) (o : Opts) (data : Data) (x : Exc)
     (h : run W fuel decl ⟨true, none⟩ o data = .error x) :
     ∃ es, x = .collected es ∧
       (∀ e ∈ es, ∃ i, e.item = some i ∧ failsAlone W fuel decl o data i = true) ∧
@@ -82,7 +81,7 @@ theorem C10_reported_eq_failing (W : World) (fuel : Nat) (decl : List FieldDecl)
   obtain ⟨hx, _⟩ := C10_one_exception W fuel decl none trivial o data x h
   refine ⟨_, hx, ?_, ?_⟩
   · intro e he
-    obtain ⟨i, h1, h2, h3⟩ := reports_sound (parse W fuel) .ff o decl hn data e he
+    obtain ⟨i, h1, h2, h3⟩ := reports_sound (parse W fuel) .ff o decl data e he
     refine ⟨i, h1, ?_⟩
     rw [failsAlone_iff, h2]
     cases hr : reports (parse W fuel) .ff o (declOf decl i) (dataOf data i) with
@@ -91,12 +90,11 @@ theorem C10_reported_eq_failing (W : World) (fuel : Nat) (decl : List FieldDecl)
   · intro i hi
     rw [failsAlone_iff] at hi
     simp only [Bool.and_eq_true, Bool.not_eq_true', List.isEmpty_eq_false_iff] at hi
-    exact reports_complete (parse W fuel) .ff o decl hn data i hi.2
+    exact reports_complete (parse W fuel) .ff o decl data i hi.2
 
 /-- With `max_errors = k` the collected error carries at most `k` errors, each naming an item that
 fails on its own. -/
-theorem C10_capped_reports_failing (W : World) (fuel : Nat) (decl : List FieldDecl)
-    (hn : (decl.map (·.name)).Nodup) (k : Nat) (hk : 0 < k) (o : Opts) (data : Data) (x : Exc)
+theorem C10_capped_reports_failing (W : World) (fuel : Nat) (decl : List FieldDecl) (k : Nat) (hk : 0 < k) (o : Opts) (data : Data) (x : Exc)
     (h : run W fuel decl ⟨true, some k⟩ o data = .error x) :
     ∃ es, x = .collected es ∧ es.length ≤ k ∧
       ∀ e ∈ es, ∃ i, e.item = some i ∧ failsAlone W fuel decl o data i = true := by
@@ -104,7 +102,7 @@ theorem C10_capped_reports_failing (W : World) (fuel : Nat) (decl : List FieldDe
   refine ⟨_, hx, by simp [cap, List.length_take, Nat.min_le_left], ?_⟩
   intro e he
   have he' : e ∈ reports (parse W fuel) .ff o decl data := List.mem_of_mem_take he
-  obtain ⟨i, h1, h2, h3⟩ := reports_sound (parse W fuel) .ff o decl hn data e he'
+  obtain ⟨i, h1, h2, h3⟩ := reports_sound (parse W fuel) .ff o decl data e he'
   refine ⟨i, h1, ?_⟩
   rw [failsAlone_iff, h2]
   cases hr : reports (parse W fuel) .ff o (declOf decl i) (dataOf data i) with
@@ -112,8 +110,7 @@ theorem C10_capped_reports_failing (W : World) (fuel : Nat) (decl : List FieldDe
   | cons a as => rfl
 
 /-- An input is accepted (in either mode) iff no top-level item fails on its own. -/
-theorem C10_accept_iff_none_fails (W : World) (fuel : Nat) (decl : List FieldDecl)
-    (hn : (decl.map (·.name)).Nodup) (o : Opts) (data : Data) :
+theorem C10_accept_iff_none_fails (W : World) (fuel : Nat) (decl : List FieldDecl) (o : Opts) (data : Data) :
     isError (run W fuel decl .ff o data) = false ↔ ∀ i, failsAlone W fuel decl o data i = false := by
   rw [C10_accept_iff_no_report]
   constructor
@@ -124,7 +121,7 @@ theorem C10_accept_iff_none_fails (W : World) (fuel : Nat) (decl : List FieldDec
       exfalso
       rw [failsAlone_iff] at hf
       simp only [Bool.and_eq_true, Bool.not_eq_true', List.isEmpty_eq_false_iff] at hf
-      obtain ⟨e, he, _⟩ := reports_complete (parse W fuel) .ff o decl hn data i hf.2
+      obtain ⟨e, he, _⟩ := reports_complete (parse W fuel) .ff o decl data i hf.2
       simp only [Bool.not_eq_false', List.isEmpty_iff] at h
       rw [h] at he
       cases he
@@ -133,7 +130,7 @@ theorem C10_accept_iff_none_fails (W : World) (fuel : Nat) (decl : List FieldDec
     | nil => rfl
     | cons e es =>
       exfalso
-      obtain ⟨i, h1, h2, h3⟩ := reports_sound (parse W fuel) .ff o decl hn data e (by rw [hr]; exact List.mem_cons_self)
+      obtain ⟨i, h1, h2, h3⟩ := reports_sound (parse W fuel) .ff o decl data e (by rw [hr]; exact List.mem_cons_self)
       have := h i
       rw [failsAlone_iff, h2] at this
       cases hri : reports (parse W fuel) .ff o (declOf decl i) (dataOf data i) with
@@ -185,8 +182,7 @@ example :
     errOf (run legacyWorld 3 demoDecl ⟨true, none⟩ { addition := some false, dfs := true }
         [("a", .atom "1"), ("zz", .atom "2")])
       = some (.collected [{ kind := .parse, item := some "a" }, { kind := .exceed, item := some "zz" },
-          { kind := .absence, item := some "a" }, { kind := .absence, item := some "b" },
-          { kind := .absence, item := some "c" }]) := by
+          { kind := .absence, item := some "b" }, { kind := .absence, item := some "c" }]) := by
   decide
 
 end Utv.C10
